@@ -518,7 +518,7 @@ func runR(c *RCase) {
 	r := newRResolver(c, b)
 	defer r.Close()
 	curW := 0
-	chain := 1 // which third of the reference vector: chain with DenyAll (1) or AllowAll (2)
+	chain := 1 // which quarter of the reference vector: chain with DenyAll (1) or AllowAll (2)
 	if c.Allow {
 		chain = 2
 	}
